@@ -63,6 +63,26 @@ def evaluate(case):
             diff = fp.fp_diff(before, after)
             part = sorted({d["path"].split(".")[1].split("[")[0] for d in diff if "." in d["path"]}) or ["?"]
             ev.add(f"caller-data-modified:{entry}:{o['kind']}:" + "+".join(part), {"ops": ops, "lazy": lazy, "diff": diff[:4]})
+    # second call on an object that was validated before (it carries the schema it was validated with): the caller
+    # writes the un-parsed values back into the returned frame and validates it again - still no in-place change
+    if o["kind"] == "ok" and not inplace and entry == "schema" and spec.get("kind", "dataframe") == "dataframe" and ops:
+        import pandas as pd
+
+        res = o["value"]
+        try:
+            same_shape = isinstance(res, pd.DataFrame) and list(res.columns) == list(data.columns) and len(res) == len(data) \
+                and res.columns.is_unique
+            if same_shape:
+                for c in data.columns:
+                    res[c] = data[c].to_numpy()
+                snap_res = fp.snapshot(res)
+                o2 = fp.outcome(lambda: schema.validate(res, lazy=lazy, inplace=False))
+                ev.labels.append("second-call=" + o2["kind"])
+                if fp.snapshot(res) != snap_res:
+                    diff = fp.fp_diff(snap_res, fp.snapshot(res))
+                    ev.add(f"caller-data-modified-on-second-call:{o2['kind']}", {"ops": ops, "lazy": lazy, "diff": diff[:4]})
+        except Exception as e:  # noqa: BLE001
+            ev.labels.append("second-call-not-expressible:" + type(e).__name__)
     return ev
 
 
